@@ -421,6 +421,97 @@ def scanning_cases(ctx, suite="K5.subgraph_scanning_lowerbound"):
         metamorphic(ctx, scanning_instance(ctx.rng), SCANNING_FLAGSETS, suite=suite)
 
 
+PARTIAL_FLAGSETS = [["optimize_with_subpath_constraints_as_safe_sequences", "optimize_with_safety_as_subpath_constraints"],
+                    ["optimize_with_subpath_constraints_as_safe_sequences", "optimize_with_safety_as_subpath_constraints",
+                     "optimize_with_safe_paths"],
+                    ["optimize_with_subpath_constraints_as_safe_sequences"]]
+STARTS_FLAGSETS = [["optimize_with_safe_paths", "optimize_with_safety_as_subpath_constraints"],
+                   ["optimize_with_safe_sequences", "optimize_with_safety_as_subpath_constraints"],
+                   ["optimize_with_safe_paths", "optimize_with_safe_zero_edges", "optimize_with_safety_as_subpath_constraints"]]
+
+
+def crossing_long_middle_instance(rng, cls):
+    """a constraint a->b->c->d whose long middle edge alone reaches the length fraction, with a side entrance and a side
+    exit at both inner nodes, and three routes of different weights that cross there (s0-a-b-z, x-b-c-y, w-c-d-t0): the
+    route over the middle edge need not contain the ends of the constraint"""
+    w1, w2, w3 = rng.sample(range(2, 10), 3)
+    Lm = rng.choice([8, 10, 12]); La, Lc = rng.choice([1, 2, 4]), rng.choice([1, 2, 4])
+    E = [("s0", "a", w1, 3), ("a", "b", w1, La), ("b", "z", w1, 1), ("x", "b", w2, 1), ("b", "c", w2, Lm), ("c", "y", w2, 1),
+         ("w", "c", w3, 1), ("c", "d", w3, Lc), ("d", "t0", w3, 3)]
+    rng.shuffle(E)
+    nodes = sorted({x for e in E for x in e[:2]}); rng.shuffle(nodes)
+    inst = {"cls": cls, "nodes": nodes, "edges": [[u, v] for u, v, _, _ in E], "origin": "edge", "weight_type": "int",
+            "constraints": [[["a", "b"], ["b", "c"], ["c", "d"]]], "coverage": "1", "coverage_length": "1/2",
+            "lengths": [[u, v, str(l)] for u, v, _, l in E], "ignore": [], "starts": [], "ends": [], "options": {},
+            "flow": [[u, v, str(f)] for u, v, f, _ in E]}
+    if cls in models.HAS_K:
+        inst["k"] = 3
+    if cls in models.COVER:
+        inst.pop("flow")
+    return inst
+
+
+def fan_start_instance(rng, cls):
+    """p -> v -> c_1..c_m with v an additional start: one light route comes from p, every child also gets a heavier route
+    that starts at v; k is tight (1 + m), so nothing may force a second route through (p, v)"""
+    m = rng.randint(2, 3)
+    w0 = rng.randint(1, 2)
+    ws = [rng.randint(3, 9) for _ in range(m)]
+    fl = {("p", "v"): w0}
+    for i in range(m):
+        fl[("v", f"c{i}")] = ws[i] + (w0 if i == 0 else 0)
+    if rng.random() < 0.5:                       # ... and the children lead on
+        for i in range(m):
+            fl[(f"c{i}", f"d{i}")] = fl[("v", f"c{i}")]
+    edges = list(fl); rng.shuffle(edges)
+    nodes = sorted({x for e in edges for x in e}); rng.shuffle(nodes)
+    inst = {"cls": cls, "nodes": nodes, "edges": [list(e) for e in edges], "origin": "edge", "weight_type": "int",
+            "constraints": [], "coverage": "1", "ignore": [], "starts": ["v"], "ends": [], "options": {},
+            "flow": [[u, v, str(fl[(u, v)])] for (u, v) in edges]}
+    if cls in models.HAS_K:
+        inst["k"] = 1 + m
+    if cls in models.COVER:
+        inst.pop("flow")
+    return inst
+
+
+def partial_length_cases(ctx, n, suite="K5.partial_length_coverage", rng=None):
+    """DAG classes with subpath constraints that only have to be covered to a fraction of their LENGTH: the safety lists
+    derived from the constraints, imposed as constraints themselves, must not change anything"""
+    rng = rng or ctx.rng
+    for it in range(n):
+        cls = rng.choice(["kFlowDecomp", "MinFlowDecomp", "kMinPathError", "kLeastAbsErrors", "kPathCover", "MinPathCover"])
+        if it % 2 == 0:
+            inst = crossing_long_middle_instance(rng, cls)
+        else:
+            inst = rounding_instance(rng, cls)
+            if not inst.get("constraints"):
+                continue
+            inst["starts"], inst["ends"], inst["ignore"] = [], [], []
+            inst["coverage"] = "1"
+            inst["coverage_length"] = rng.choice(["1/2", "3/5", "3/4"])
+            inst["lengths"] = [[u, v, str(rng.choice([1, 1, 2, 4]))] for u, v in inst["edges"]]
+        metamorphic(ctx, inst, PARTIAL_FLAGSETS, suite=suite)
+
+
+def starts_with_safety_cases(ctx, n, suite="K5.additional_starts_with_safety", rng=None):
+    """classes that accept additional start / end nodes, safe paths / sequences imposed as constraints"""
+    rng = rng or ctx.rng
+    for it in range(n):
+        cls = rng.choice(["kMinPathError", "kLeastAbsErrors", "kPathCover", "MinPathCover"])
+        if it % 2 == 0:
+            inst = fan_start_instance(rng, cls)
+        else:
+            inst = models.instance(rng, cls, features=False)
+            inner = [v for v in inst["nodes"] if any(e[1] == v for e in inst["edges"]) and any(e[0] == v for e in inst["edges"])]
+            if not inner:
+                continue
+            inst["starts"] = rng.sample(inner, min(len(inner), rng.randint(1, 2)))
+            inst["ends"] = rng.sample(inner, rng.randint(0, 1))
+            inst["ignore"] = []
+        metamorphic(ctx, inst, STARTS_FLAGSETS, suite=suite)
+
+
 def gen_inst(rng, cls):
     if models.is_cyc(cls) and cls not in models.COVER and rng.random() < 0.12:
         return unreachable_cycle_instance(rng, cls)
@@ -461,6 +552,8 @@ def run(ctx):
                          note="_apply_safety_optimizations ran in a DAG model: FP/Model/PathSafetyRows.lean no longer mirrors the code")
     flow_safe_ignored_cases(ctx)
     scanning_cases(ctx)
+    partial_length_cases(ctx, ctx.n(10, 80))
+    starts_with_safety_cases(ctx, ctx.n(10, 80))
     for cls in ("kFlowDecompCycles", "MinFlowDecompCycles", "kLeastAbsErrorsCycles", "kMinPathErrorCycles"):
         for it in range(ctx.n(1, 6)):
             metamorphic(ctx, unreachable_cycle_instance(rng, cls), sample_flagsets(rng, flags_of(cls), 1),
@@ -559,6 +652,8 @@ def finding_case(ctx, inp):
 
 def search(ctx):
     rng = random.Random(5150)
+    partial_length_cases(ctx, 40, suite="search.partial_length_coverage", rng=rng)
+    starts_with_safety_cases(ctx, 40, suite="search.additional_starts_with_safety", rng=rng)
     for cls in models.ALL_CLASSES:
         for it in range(6):
             inst = gen_inst(rng, cls)
